@@ -121,6 +121,12 @@ impl Carrier {
                 ConfirmationStatus::InMempoolSince(self.block_height)
             }
             Err(JsonRpcError(RpcError(rpcerr))) => match rpcerr.code {
+                // bitcoind has just been restarted and is not ready yet. That says nothing about the transaction.
+                rpc_errors::RPC_IN_WARMUP => {
+                    log::error!("bitcoind is warming up, retrying request when possible");
+                    self.flag_bitcoind_unreachable();
+                    return self.send_transaction(tx);
+                }
                 // Since we're pushing a raw transaction to the network we can face several rejections
                 rpc_errors::RPC_VERIFY_REJECTED => {
                     log::error!("Transaction couldn't be broadcast. {rpcerr:?}");
@@ -186,6 +192,12 @@ impl Carrier {
                 rpc_errors::RPC_INVALID_ADDRESS_OR_KEY => {
                     log::info!("Transaction not found in mempool: {txid}");
                     false
+                }
+                // bitcoind has just been restarted and is not ready yet.
+                rpc_errors::RPC_IN_WARMUP => {
+                    log::error!("bitcoind is warming up, retrying request when possible");
+                    self.flag_bitcoind_unreachable();
+                    self.in_mempool(txid)
                 }
                 e => {
                     // DISCUSS: This could result in a silent error with unknown consequences
